@@ -13,11 +13,11 @@ def strip_how(l):
     return re.sub(r" #\w+$", "", l)
 
 
-def run_conc(ctx, procs, cases_per_proc):
+def run_conc(ctx, procs, extra):
     def one(i):
         d = os.path.join(ctx.scratch, "conc%d" % i)
         os.makedirs(d, exist_ok=True)
-        cmd = [harness_bin("conc"), "--seed", str(ctx.seed * 1000 + i), "--out", d, "cases=%d" % cases_per_proc]
+        cmd = [harness_bin("conc"), "--seed", str(ctx.seed * 1000 + i), "--out", d] + extra
         try:
             r = subprocess.run(cmd, stdout=subprocess.PIPE, stderr=subprocess.PIPE, timeout=3000)
         except subprocess.TimeoutExpired:
@@ -195,7 +195,7 @@ def case_block(ops, idx):
     return s, e
 
 
-def conc_check(ctx, module, theorems, props, what, assumptions, cases_quick=150, cases_thorough=4000):
+def conc_check(ctx, module, theorems, props, what, assumptions, extra_quick=('cases=150',), extra_thorough=('cases=4000',), rule=None):
     pr = prove(ctx, module, theorems)
     ok, out = cargo_build(ctx, ["conc"])
     cov0 = lambda extra: proof_coverage(pr, "cd lean && lake build %s feoxdrv && #print axioms audit" % module, TRUSTED_COMMON, extra)
@@ -205,9 +205,10 @@ def conc_check(ctx, module, theorems, props, what, assumptions, cases_quick=150,
     for f in pr["failures"]:
         violation(ctx, "proof obligation not discharged: " + f, "theorem/obligation that no longer checks: %s\n" % f, no_input=True, tag="proof")
     procs = 12 if ctx.tier == "quick" else 16
-    outs = run_conc(ctx, procs, cases_quick if ctx.tier == "quick" else cases_thorough)
+    outs = run_conc(ctx, procs, list(extra_quick if ctx.tier == "quick" else extra_thorough))
     lines = diffs = cases = nfail = reported = nonlin = 0
     kinds, hows, distinct = {}, {}, set()
+    deferred = []
     for o in outs:
         if "crash" in o:
             violation(ctx, "conc harness did not finish: " + o["crash"], o["crash"], tag="crash")
@@ -225,6 +226,21 @@ def conc_check(ctx, module, theorems, props, what, assumptions, cases_quick=150,
                     violation(ctx, "%s: %s" % (what, f["what"]), "# %s\n# re-run: harness/target/release/conc --seed %d\n%s" % (
                         f["what"], ctx.seed * 1000 + outs.index(o), txt))
         lines += len(o["ops"])
+        if "C08" in props:
+            for idx, (op, im, mo) in enumerate(zip(o["ops"], o["impl"], o["model"])):
+                if not op.startswith("pin "):
+                    continue
+                distinct.add(hashlib.sha1((op + mo).encode()).digest())
+                if im != mo:
+                    diffs += 1
+                    if reported < 3:
+                        reported += 1
+                        s0 = idx
+                        while s0 > 0 and o["ops"][s0] != "pin new":
+                            s0 -= 1
+                        body = "".join("%s   # implementation: %s | model: %s\n" % (a, b, c) for a, b, c in zip(o["ops"][s0:idx + 1], o["impl"][s0:idx + 1], o["model"][s0:idx + 1]))
+                        violation(ctx, "correspondence: the real extent_state word and the Lean Pin automaton disagree at `%s`: word says `%s`, model `%s`" % (op, im, mo),
+                                  "# correspondence that no longer checks: pin-word differential, model Feox.Conc.Pin (theorems Feox.C08.*)\n" + body, no_input=(nfail == 0))
         if "C07" not in props:
             continue
         bad_cases = set()
@@ -246,22 +262,27 @@ def conc_check(ctx, module, theorems, props, what, assumptions, cases_quick=150,
                 bad_keys = [k for k, cs in by_key.items() if not linearizable(cs)]
                 if bad_keys:
                     nonlin += 1
-                if reported < 3:
-                    reported += 1
-                    body = "".join(l + "\n" for l in o["ops"][s:idx + 1])
-                    hist = "".join("#   %s | %s\n" % (a, b) for a, b in zip(o["ops"][s:e], o["impl"][s:e]))
-                    if bad_keys:
+                body = "".join(l + "\n" for l in o["ops"][s:idx + 1])
+                hist = "".join("#   %s | %s\n" % (a, b) for a, b in zip(o["ops"][s:e], o["impl"][s:e]))
+                if bad_keys:
+                    if reported < 3:
+                        reported += 1
                         violation(ctx, "the real store produced a history that no sequential last-writer-wins execution explains (key %s): %s answered `%s`, the model `%s`" % (
                             bad_keys[0], op, im, strip_how(mo)),
                             "# not linearizable (brute-force search over all orders respecting real time, permitted refusals allowed)\n# history (schedule line | implementation answer):\n%s# replay: ./check C07 --replay <this file>\n%s" % (hist, body))
-                    else:
-                        violation(ctx, "correspondence: the real store and the Lean Conc system disagree: %s answered `%s`, the model `%s`" % (op, im, strip_how(mo)),
-                                  "# correspondence that no longer checks: conc engine, model Feox.Conc (theorems Feox.C07.*)\n# the history itself is still explained by some sequential order\n%s%s" % (hist, body),
-                                  no_input=True)
+                else:
+                    deferred.append((op, im, strip_how(mo), hist, body))
+    for op, im, mo, hist, body in deferred:
+        if reported >= 3:
+            break
+        reported += 1
+        violation(ctx, "correspondence: the real store and the Lean Conc system disagree: %s answered `%s`, the model `%s`" % (op, im, mo),
+                  "# correspondence that no longer checks: conc engine, model Feox.Conc (theorems Feox.C07.*)\n# the history itself is still explained by some sequential order\n%s%s" % (hist, body),
+                  no_input=(nonlin == 0))
     ctx.log("conc: %d cases, %d lines, %d implementation-level failures for %s, %d differing cases (%d not linearizable)" % (cases, lines, nfail, props, diffs, nonlin))
     cov = cov0({
         "evaluations": lines, "distinct_nontrivial": len(distinct),
-        "rule": "2-4 worker threads run programs of 1-3 calls (get, insert/insert_bytes, delete, compare-and-swap, increment, insert-if-absent, JSON patch; automatic, zero and explicit timestamps around the pinned wall clock) on one or two keys of the real store (memory-only, persistent, persistent+cache; background flusher running); a controller parks every worker at each scheduling point (hook) and a seeded random scheduler picks who goes on; the Lean system replays the same choices and must give the same at/return answer, response, published timestamp and version-clock value on every line; case families: mixed, counters, JSON documents, raw values with explicit timestamps. Distinct = SHA-1 of (operation, answer).",
+        "rule": rule or "2-4 worker threads run programs of 1-3 calls (get, insert/insert_bytes, delete, compare-and-swap, increment, insert-if-absent, JSON patch; automatic, zero and explicit timestamps around the pinned wall clock) on one or two keys of the real store (memory-only, persistent, persistent+cache; background flusher running); a controller parks every worker at each scheduling point (hook) and a seeded random scheduler picks who goes on; the Lean system replays the same choices and must give the same at/return answer, response, published timestamp and version-clock value on every line; case families: mixed, counters, JSON documents, raw values with explicit timestamps. Distinct = SHA-1 of (operation, answer).",
         "cases": cases, "lean_lines": lines, "kind_histogram": kinds, "model_outcome_kinds": hows,
         "implementation_failures": nfail, "lean_differences": diffs, "non_linearizable_histories": nonlin,
     })
